@@ -14,12 +14,15 @@ def digitVal (c : Char) : Nat :=
 
 def parseNat (base : Nat) (s : Str) : Nat := s.foldl (fun acc c => acc * base + digitVal c) 0
 
-/-- the character a reference denotes: the number must fit `u32`, be a scalar value and an XML Char -/
-def charOfRef (digits : Str) (hex : Bool) : Option Char :=
-  let n := parseNat (if hex then 16 else 10) digits
-  if n < 4294967296 && Gen.isChar n then
-    (if h : n.isValidChar then some (Char.ofNatAux n h) else none)
+/-- the character with code point `n`, if `n` fits `u32`, is a scalar value and an XML Char -/
+def charOfNat (n : Nat) : Option Char :=
+  if h : n.isValidChar then
+    (if n < 4294967296 && Gen.isChar n then some (Char.ofNatAux n h) else none)
   else none
+
+/-- the character a reference denotes -/
+def charOfRef (digits : Str) (hex : Bool) : Option Char :=
+  charOfNat (parseNat (if hex then 16 else 10) digits)
 
 /-! ### entity table -/
 abbrev EntTable := List (Str × EntDef)
@@ -75,25 +78,26 @@ def checkItems (t : EntTable) : List Item → Except XErr Unit
       | .ok () => checkItems t r
 end
 
-/-- ATTLIST default values are built while the DOCTYPE is not yet attached to the document, so
-    only the predefined entities resolve there (model of the code's construction order) -/
-def checkDtd : List DtdItem → Except XErr Unit
+/-- the internal subset is read in order: an ATTLIST default may refer to the predefined entities and
+    to the entities declared before it -/
+def checkDtd (t : EntTable) : List DtdItem → Except XErr Unit
   | [] => .ok ()
   | .attlist _ defs :: r =>
       let rec go : List AttDef → Except XErr Unit
         | [] => .ok ()
         | d :: ds => match d.dflt with
-            | .value _ vs => (match checkPieces [] vs with | .error e => .error e | .ok () => go ds)
+            | .value _ vs => (match checkPieces t vs with | .error e => .error e | .ok () => go ds)
             | _ => go ds
       match go defs with
       | .error e => .error e
-      | .ok () => checkDtd r
-  | _ :: r => checkDtd r
+      | .ok () => checkDtd t r
+  | .entity n e :: r => checkDtd (t ++ [(n, e)]) r
+  | _ :: r => checkDtd t r
 
 def checkDoc (d : IDoc) : Except XErr Unit :=
   let dt := d.kids.findSome? fun | .doctype x => some x | _ => none
   let t := match dt with | some x => entTableOf x | none => []
-  match (match dt with | some x => checkDtd x.kids | none => .ok ()) with
+  match (match dt with | some x => checkDtd [] x.kids | none => .ok ()) with
   | .error e => .error e
   | .ok () =>
     match d.kids.findSome? fun | .elem e => some e | _ => none with
@@ -102,9 +106,78 @@ def checkDoc (d : IDoc) : Except XErr Unit :=
 
 def xmlFuel (s : Str) : Nat := 200000 + 256 * s.length
 
-/-- `XmlDocument::from_raw`: (document, unconsumed rest) or an error class -/
-def parseDoc (s : Str) : Except XErr (IDoc × Str) :=
-  match run env (xmlFuel s) (.nt N.document) s with
+/-- [5] Name ::= NameStartChar (NameChar)*  as the Recommendation has it -/
+def specName : G := .seq [.one P.isNameStartChar, .cls0 P.isNameChar]
+
+/-- the grammar with every recorded deviation from the Recommendation repaired (`Quirks.none`):
+    today only production [5] Name (finding `name-lax`) -/
+def envSpec : Env := fun n => if n = N.name then specName else env n
+
+/-! ### entity-usage constraints (specification side only; the library checks none of them) -/
+
+/-- 4.5: literal entity value to replacement text: character references are included, general
+    entity references are bypassed -/
+def replacementText : List Piece → Option Str
+  | [] => some []
+  | .text s :: r => (replacementText r).map (s ++ ·)
+  | .charRef d h :: r => match charOfRef d h, replacementText r with
+      | some c, some x => some (c :: x)
+      | _, _ => none
+  | .entRef n :: r => (replacementText r).map (('&' :: n ++ [';']) ++ ·)
+  | .peRef n :: r => (replacementText r).map (('%' :: n ++ [';']) ++ ·)
+
+def contentOk (ev : Env) (rt : Str) : Bool :=
+  match run ev (xmlFuel rt) (.nt N.content) rt with
+  | .ok _ [] => true
+  | _ => false
+
+def isPredefinedOnly (t : EntTable) (name : Str) : Bool :=
+  (predefined.find? (·.1 == name)).isSome && (t.find? (·.1 == name)).isNone
+
+/-- WFC Entity Declared, Parsed Entity, No Recursion, No External Entity References, No `<` in
+    Attribute Values, and well-formedness of the replacement text, for one reference -/
+def strictEnt (ev : Env) (t : EntTable) (inAttr : Bool) : Nat → List Str → Str → Bool
+  | 0, _, _ => false
+  | fuel+1, open_, name =>
+    if isPredefinedOnly t name then true
+    else if open_.contains name then false
+    else match lookupEnt t name with
+      | none => false
+      | some (.external _ _ nd) => !inAttr && nd.isNone
+      | some (.internal vs) =>
+        match replacementText vs with
+        | none => false
+        | some rt =>
+          (if inAttr then !rt.contains '<' else contentOk ev rt) &&
+          vs.all fun
+            | .entRef m => strictEnt ev t inAttr fuel (name :: open_) m
+            | _ => true
+
+def strictPieces (ev : Env) (t : EntTable) (ps : List Piece) : Bool :=
+  ps.all fun | .entRef n => strictEnt ev t true (t.length + 2) [] n | _ => true
+
+mutual
+def strictItem (ev : Env) (t : EntTable) : Item → Bool
+  | .entRef n => strictEnt ev t false (t.length + 2) [] n
+  | .elem _ attrs kids => attrs.all (fun a => strictPieces ev t a.vals) && strictItems ev t kids
+  | _ => true
+def strictItems (ev : Env) (t : EntTable) : List Item → Bool
+  | [] => true
+  | i :: r => strictItem ev t i && strictItems ev t r
+end
+
+def strictDoc (ev : Env) (d : IDoc) : Bool :=
+  let dt := d.kids.findSome? fun | .doctype x => some x | _ => none
+  let t := match dt with | some x => entTableOf x | none => []
+  match d.kids.findSome? fun | .elem e => some e | _ => none with
+  | some e => strictItem ev t e
+  | none => false
+
+/-- `XmlDocument::from_raw` over a grammar environment: (document, unconsumed rest) or an error
+    class.  `strict` adds the entity-usage constraints the library does not check (recorded finding
+    `entity-wfc`) -/
+def parseDocWith (ev : Env) (strict : Bool) (s : Str) : Except XErr (IDoc × Str) :=
+  match run ev (xmlFuel s) (.nt N.document) s with
   | .fuel => .error .fuel
   | .fail => .error .syntax
   | .ok (.node _ c) rest =>
@@ -112,8 +185,17 @@ def parseDoc (s : Str) : Except XErr (IDoc × Str) :=
        | .error e => .error e
        | .ok d => match checkDoc d with
            | .error e => .error e
-           | .ok () => .ok (d, rest))
+           | .ok () => if strict && !strictDoc ev d then .error .reference else .ok (d, rest))
   | .ok _ _ => .error .shape
+
+/-- the model of the code as it is (grammar translated from the current source) -/
+def parseDoc (s : Str) : Except XErr (IDoc × Str) := parseDocWith env false s
+
+/-- the model with the recorded findings repaired -/
+def parseDocSpec (s : Str) : Except XErr (IDoc × Str) := parseDocWith envSpec true s
+
+/-- current grammar, strict entity checks (used to attribute failures to single findings) -/
+def parseDocStrictOnly (s : Str) : Except XErr (IDoc × Str) := parseDocWith env true s
 
 /-! ### the compact printer -/
 def escapeQ (v : Str) : Str := if v.contains '"' then '\'' :: v ++ ['\''] else '"' :: v ++ ['"']
